@@ -15,11 +15,10 @@ else
 fi
 if [[ "${TESTS:-0}" == 1 ]]; then /verif/tools/repo_tests.sh "$W"; echo "repo tests rc=$?"; fi
 for P in "$@"; do
-  VERIF_REPO="$W" /venv/bin/python /verif/run_check.py "$P" --tier ${TIER:-quick} 2>/tmp/try_patch.err | tail -4
+  VERIF_OUT_DIR="$W/_verif_out" VERIF_REPO="$W" /venv/bin/python /verif/run_check.py "$P" --tier ${TIER:-quick} 2>/tmp/try_patch.err | tail -4
   echo "$P rc=${PIPESTATUS[0]}"
   grep -m3 "^violation" /tmp/try_patch.err | cut -c1-400
 done
 git -C /repo worktree remove --force "$W"
 rm -rf "$W"
 # evidence/replays written by these runs are scratch
-git -C /verif checkout -- evidence 2>/dev/null
